@@ -14,11 +14,13 @@ theorem eval_ifc (X : Ctx p q) {srt : Fun.IfSort} {a b t1 e1 : Fun.Term} {ty : O
     {env : Fun.Env} {k : Fun.Stack} {c : Core.Term} {s : Core.Stmt} {ρ0 ρ : CEnv} {out : Out}
     {n : Nat} (hg : good p (.ifc srt a b t1 e1 ty) = true)
     (hc : Compiled q n (.ifc srt a b t1 e1 ty) c s)
-    (he : EnvRel (GP p) q n (fv (.ifc srt a b t1 e1 ty)) env ρ0) (hr : CRel (GP p) q n k c ρ0)
+    (he : EnvRel (GP p) p q n (fv (.ifc srt a b t1 e1 ty)) env ρ0) (hr : CRel (GP p) p q n k c ρ0)
     (hbd : BoundOn (tfvStmt s []) ρ0) (hag : AgreeOn (tfvStmt s []) ρ0 ρ) :
     Chunk p q (R p q) true true μ (.eval (.ifc srt a b t1 e1 ty) env k) ⟨s, ρ, out, n⟩ := by
   simp only [good, Bool.and_eq_true] at hg
-  obtain ⟨⟨⟨⟨hga, hgb⟩, hgt⟩, hge⟩, _⟩ := hg
+  obtain ⟨⟨⟨⟨⟨⟨hga, hgb⟩, hgt⟩, hge⟩, _⟩, hia⟩, hib⟩ := hg
+  replace hia := i64T_iff.1 hia
+  replace hib := i64T_iff.1 hib
   obtain ⟨st, st', hcwc, hst, htn, hcn⟩ := hc
   rw [cwc_ifc] at hcwc
   have hfr : FS st (if isLeaf c = true then (c, st) else share c st).2 :=
@@ -61,26 +63,26 @@ theorem eval_ifc (X : Ctx p q) {srt : Fun.IfSort} {a b t1 e1 : Fun.Term} {ty : O
             (fun x hx => by simp [binderNames, hx]) f02
           have tne : TermNames e1 st3 := htn.of_sub (fun x hx => by simp [fv, hx])
             (fun x hx => by simp [binderNames, hx]) f03
-          obtain ⟨hr', hcn'⟩ : CRel (GP p) q n k r.1 ρ0 ∧ ConsNames r.1 r.2 n := by
+          obtain ⟨hr', hcn'⟩ : CRel (GP p) p q n k r.1 ρ0 ∧ ConsNames r.1 r.2 n := by
             rw [← hrdef]
             exact shareIf_rel (isLeaf c) hr hcn (by rw [hrdef]; exact hstr.1)
           have f12 : FS r.2 st2 := fs_stepRel.trans fa fb
           have hct' : Compiled q n t1 r.1 T := ⟨st2, st3, hct, hst3, tnt, hcn'.mono_st f12.sub⟩
           have hce' : Compiled q n e1 r.1 E :=
             ⟨st3, st4, hce, hst, tne, hcn'.mono_st (fs_stepRel.trans f12 ft).sub⟩
-          have hea : EnvRel (GP p) q n (fv a) env ρ0 := he.sub fun y hy => by simp [fv, hy]
-          have hebte : EnvRel (GP p) q n (fv b ++ fv t1 ++ fv e1) env ρ0 := he.sub fun y hy => by
+          have hea : EnvRel (GP p) p q n (fv a) env ρ0 := he.sub fun y hy => by simp [fv, hy]
+          have hebte : EnvRel (GP p) p q n (fv b ++ fv t1 ++ fv e1) env ρ0 := he.sub fun y hy => by
             simp only [fv, List.mem_append] at hy ⊢
             rcases hy with (h | h) | h <;> simp [h]
           have f1 : FSteps p (.eval (.ifc srt a b t1 e1 ty) env k)
               (.eval a env (.ifL srt b t1 e1 env :: k)) [] 1 := .one rfl
           refine Chunk.prefix f1 (.refl _) rfl (fun _ => Nat.le_refl _) (fun h => .inr h) ?_
-          refine operand_sim X.cod a hga (fun h => .ifc (compileSort srt) h B T E)
+          refine operand_sim X.cod a hga hia (fun h => .ifc (compileSort srt) h B T E)
             (fun A hA => split_ifc1 hA) hca hst1 tna hea
             (hbd.mono fun y hy => mem_tfv_ifc.2 (.inl hy))
             (hag.mono fun y hy => mem_tfv_ifc.2 (.inl hy)) ?_ ?_
           · intro τ
-            refine KRel.ifL (i := n) (ρ0 := ρ0) hgb hgt hge (Nat.lt_succ_self n) ⟨st1, st2, hcb, hst2, tnb⟩
+            refine KRel.ifL (i := n) (ρ0 := ρ0) hgb hgt hge (Nat.lt_succ_self n) hib ⟨st1, st2, hcb, hst2, tnb⟩
               hct' hce' (hebte.mono (Nat.le_succ n)) (hr'.mono (Nat.le_succ n)) ?_ ?_
             · refine hbd.mono fun y hy => ?_
               obtain ⟨h1, h2⟩ := List.mem_filter.1 hy
@@ -102,7 +104,7 @@ theorem eval_ifc (X : Ctx p q) {srt : Fun.IfSort} {a b t1 e1 : Fun.Term} {ty : O
               htn.fv_ne_sig y (by
                 simp only [fv, List.mem_append] at hy ⊢
                 rcases hy with (h | h) | h <;> simp [h])
-            exact cont_ifL X.cod (ρ0 := ρ0') hgb hgt hge hcb hst2 tnb hct' hce' hn
+            exact cont_ifL X.cod (ρ0 := ρ0') hgb hgt hge hib hcb hst2 tnb hct' hce' hn
               ((hebte.mono hn).sigExt hext0 hfs)
               ((hr'.mono hn).sigExt hext0 (hcn'.sig_lt (Nat.le_refl n)))
               ((hbd.mono fun y hy => mem_tfv_ifc.2 (.inr (.inl hy))).sigExt hext0)
@@ -118,11 +120,12 @@ theorem eval_ifz (X : Ctx p q) {srt : Fun.IfSort} {a t1 e1 : Fun.Term} {ty : Opt
     {env : Fun.Env} {k : Fun.Stack} {c : Core.Term} {s : Core.Stmt} {ρ0 ρ : CEnv} {out : Out}
     {n : Nat} (hg : good p (.ifz srt a t1 e1 ty) = true)
     (hc : Compiled q n (.ifz srt a t1 e1 ty) c s)
-    (he : EnvRel (GP p) q n (fv (.ifz srt a t1 e1 ty)) env ρ0) (hr : CRel (GP p) q n k c ρ0)
+    (he : EnvRel (GP p) p q n (fv (.ifz srt a t1 e1 ty)) env ρ0) (hr : CRel (GP p) p q n k c ρ0)
     (hbd : BoundOn (tfvStmt s []) ρ0) (hag : AgreeOn (tfvStmt s []) ρ0 ρ) :
     Chunk p q (R p q) true true μ (.eval (.ifz srt a t1 e1 ty) env k) ⟨s, ρ, out, n⟩ := by
   simp only [good, Bool.and_eq_true] at hg
-  obtain ⟨⟨⟨hga, hgt⟩, hge⟩, _⟩ := hg
+  obtain ⟨⟨⟨⟨hga, hgt⟩, hge⟩, _⟩, hia⟩ := hg
+  replace hia := i64T_iff.1 hia
   obtain ⟨st, st', hcwc, hst, htn, hcn⟩ := hc
   rw [cwc_ifz] at hcwc
   have hfr : FS st (if isLeaf c = true then (c, st) else share c st).2 :=
@@ -156,20 +159,20 @@ theorem eval_ifz (X : Ctx p q) {srt : Fun.IfSort} {a t1 e1 : Fun.Term} {ty : Opt
           (fun x hx => by simp [binderNames, hx]) f01
         have tne : TermNames e1 st2 := htn.of_sub (fun x hx => by simp [fv, hx])
           (fun x hx => by simp [binderNames, hx]) f02
-        obtain ⟨hr', hcn'⟩ : CRel (GP p) q n k r.1 ρ0 ∧ ConsNames r.1 r.2 n := by
+        obtain ⟨hr', hcn'⟩ : CRel (GP p) p q n k r.1 ρ0 ∧ ConsNames r.1 r.2 n := by
           rw [← hrdef]
           exact shareIf_rel (isLeaf c) hr hcn (by rw [hrdef]; exact hstr.1)
         have hct' : Compiled q n t1 r.1 T := ⟨st1, st2, hct, hst2, tnt, hcn'.mono_st fa.sub⟩
         have hce' : Compiled q n e1 r.1 E :=
           ⟨st2, st3, hce, hst, tne, hcn'.mono_st (fs_stepRel.trans fa ft).sub⟩
-        have hea : EnvRel (GP p) q n (fv a) env ρ0 := he.sub fun y hy => by simp [fv, hy]
-        have hete : EnvRel (GP p) q n (fv t1 ++ fv e1) env ρ0 := he.sub fun y hy => by
+        have hea : EnvRel (GP p) p q n (fv a) env ρ0 := he.sub fun y hy => by simp [fv, hy]
+        have hete : EnvRel (GP p) p q n (fv t1 ++ fv e1) env ρ0 := he.sub fun y hy => by
           simp only [fv, List.mem_append] at hy ⊢
           rcases hy with h | h <;> simp [h]
         have f1 : FSteps p (.eval (.ifz srt a t1 e1 ty) env k)
             (.eval a env (.ifZ srt t1 e1 env :: k)) [] 1 := .one rfl
         refine Chunk.prefix f1 (.refl _) rfl (fun _ => Nat.le_refl _) (fun h => .inr h) ?_
-        refine operand_sim X.cod a hga (fun h => .ifz (compileSort srt) h T E)
+        refine operand_sim X.cod a hga hia (fun h => .ifz (compileSort srt) h T E)
           (fun A hA => split_ifz hA) hca hst1 tna hea
           (hbd.mono fun y hy => mem_tfv_ifz.2 (.inl hy))
           (hag.mono fun y hy => mem_tfv_ifz.2 (.inl hy)) ?_ ?_
@@ -208,11 +211,12 @@ theorem eval_print (X : Ctx p q) {nl : Bool} {a next : Fun.Term} {ty : Option Fu
     {env : Fun.Env} {k : Fun.Stack} {c : Core.Term} {s : Core.Stmt} {ρ0 ρ : CEnv} {out : Out}
     {n : Nat} (hg : good p (.print nl a next ty) = true)
     (hc : Compiled q n (.print nl a next ty) c s)
-    (he : EnvRel (GP p) q n (fv (.print nl a next ty)) env ρ0) (hr : CRel (GP p) q n k c ρ0)
+    (he : EnvRel (GP p) p q n (fv (.print nl a next ty)) env ρ0) (hr : CRel (GP p) p q n k c ρ0)
     (hbd : BoundOn (tfvStmt s []) ρ0) (hag : AgreeOn (tfvStmt s []) ρ0 ρ) :
     Chunk p q (R p q) true true μ (.eval (.print nl a next ty) env k) ⟨s, ρ, out, n⟩ := by
   simp only [good, Bool.and_eq_true] at hg
-  obtain ⟨⟨hga, hgn⟩, _⟩ := hg
+  obtain ⟨⟨⟨hga, hgn⟩, _⟩, hia⟩ := hg
+  replace hia := i64T_iff.1 hia
   obtain ⟨st, st', hcwc, hst, htn, hcn⟩ := hc
   rw [cwc_print] at hcwc
   cases hca : compile a .i64 st with
@@ -233,12 +237,12 @@ theorem eval_print (X : Ctx p q) {nl : Bool} {a next : Fun.Term} {ty : Option Fu
       have tnn : TermNames next st1 := htn.of_sub (fun x hx => by simp [fv, hx])
         (fun x hx => by simp [binderNames, hx]) fa
       have hcn' : Compiled q n next c N := ⟨st1, st2, hcx, hst, tnn, hcn.mono_st fa.sub⟩
-      have hea : EnvRel (GP p) q n (fv a) env ρ0 := he.sub fun y hy => by simp [fv, hy]
-      have hen : EnvRel (GP p) q n (fv next) env ρ0 := he.sub fun y hy => by simp [fv, hy]
+      have hea : EnvRel (GP p) p q n (fv a) env ρ0 := he.sub fun y hy => by simp [fv, hy]
+      have hen : EnvRel (GP p) p q n (fv next) env ρ0 := he.sub fun y hy => by simp [fv, hy]
       have f1 : FSteps p (.eval (.print nl a next ty) env k)
           (.eval a env (.print nl next env :: k)) [] 1 := .one rfl
       refine Chunk.prefix f1 (.refl _) rfl (fun _ => Nat.le_refl _) (fun h => .inr h) ?_
-      refine operand_sim X.cod a hga (fun h => .print nl h N)
+      refine operand_sim X.cod a hga hia (fun h => .print nl h N)
         (fun A hA => split_print hA) hca hst1 tna hea
         (hbd.mono fun y hy => mem_tfv_print.2 (.inl hy))
         (hag.mono fun y hy => mem_tfv_print.2 (.inl hy)) ?_ ?_
@@ -269,11 +273,12 @@ theorem eval_exit (X : Ctx p q) {u : Fun.Term} {ty : Option Fun.Ty}
     {env : Fun.Env} {k : Fun.Stack} {c : Core.Term} {s : Core.Stmt} {ρ0 ρ : CEnv} {out : Out}
     {n : Nat} (hg : good p (.exit u ty) = true)
     (hc : Compiled q n (.exit u ty) c s)
-    (he : EnvRel (GP p) q n (fv (.exit u ty)) env ρ0)
+    (he : EnvRel (GP p) p q n (fv (.exit u ty)) env ρ0)
     (hbd : BoundOn (tfvStmt s []) ρ0) (hag : AgreeOn (tfvStmt s []) ρ0 ρ) :
     Chunk p q (R p q) true true μ (.eval (.exit u ty) env k) ⟨s, ρ, out, n⟩ := by
   simp only [good, Bool.and_eq_true] at hg
-  replace hg := hg.1
+  have hiu := i64T_iff.1 hg.2
+  replace hg := hg.1.1
   obtain ⟨st, st', hcwc, hst, htn, hcn⟩ := hc
   rw [cwc_exit] at hcwc
   cases hca : compile u .i64 st with
@@ -289,7 +294,7 @@ theorem eval_exit (X : Ctx p q) {u : Fun.Term} {ty : Option Fun.Ty}
         (fun x hx => by simp [binderNames, hx]) (fs_stepRel.refl st)
       have f1 : FSteps p (.eval (.exit u (some τ0)) env k) (.eval u env [.exitF]) [] 1 := .one rfl
       refine Chunk.prefix f1 (.refl _) rfl (fun _ => Nat.le_refl _) (fun h => .inr h) ?_
-      refine operand_sim X.cod u hg (fun h => .exit h (compileTy τ0))
+      refine operand_sim X.cod u hg hiu (fun h => .exit h (compileTy τ0))
         (fun A hA => split_exit hA) hca hst tnu (by simpa [fv] using he)
         (hbd.mono fun y hy => mem_tfv_exit.2 hy)
         (hag.mono fun y hy => mem_tfv_exit.2 hy) ?_ ?_
